@@ -29,6 +29,10 @@ pub enum Layout {
     MemSingle,
     /// every table registered in the batches cut by the catalog generator (multi-partition when ≥1000 rows in ≥2 batches)
     MemBatches,
+    /// every table cut into 6–12 batches with its rows reordered so that the NULLs of one nullable column are clustered at the
+    /// end (or the start): whole trailing / leading batches are all-NULL in that column.  Row order is unspecified in SQL, so
+    /// this is the same table; it drives the parallel partial-aggregate merge (> 4 batches) over chunks that saw only NULLs.
+    MemClustered,
     /// every table written as `files` Parquet files with the given max row-group size, registered with register_parquet
     Parquet { files: usize, rg: usize },
 }
@@ -50,6 +54,7 @@ pub struct ExecCfg { pub name: String, pub layout: Layout, pub mem_limit: Option
 
 impl ExecCfg {
     pub fn mem_single() -> ExecCfg { ExecCfg { name: "mem1".into(), layout: Layout::MemSingle, mem_limit: None, rules: Rules::Default } }
+    pub fn mem_clustered() -> ExecCfg { ExecCfg { name: "mem8c".into(), layout: Layout::MemClustered, mem_limit: None, rules: Rules::Default } }
     pub fn mem_batches() -> ExecCfg { ExecCfg { name: "memb".into(), layout: Layout::MemBatches, mem_limit: None, rules: Rules::Default } }
     pub fn parquet(files: usize, rg: usize) -> ExecCfg { ExecCfg { name: format!("pq{}x{}", files, rg), layout: Layout::Parquet { files, rg }, mem_limit: None, rules: Rules::Default } }
     pub fn with_limit(mut self, n: usize) -> ExecCfg { self.mem_limit = Some(n); self.name = format!("{}+lim{}", self.name, n); self }
@@ -57,11 +62,11 @@ impl ExecCfg {
         self.name = format!("{}+{}", self.name, match &r { Rules::Default => "opt".to_string(), Rules::None => "noopt".to_string(), Rules::Without(v) => format!("without:{}", v.join("/")), Rules::Only(v) => format!("only:{}", v.join("/")) });
         self.rules = r; self
     }
-    /// parse a configuration name as produced by `name` (used by replay): mem1 | memb | pq<f>x<rg> [+lim<n>] [+noopt | +without:a/b | +only:a/b]
+    /// parse a configuration name as produced by `name` (used by replay): mem1 | memb | mem8c | pq<f>x<rg> [+lim<n>] [+noopt | +without:a/b | +only:a/b]
     pub fn parse(s: &str) -> Option<ExecCfg> {
         let mut parts = s.split('+');
         let base = parts.next()?;
-        let mut c = if base == "mem1" { ExecCfg::mem_single() } else if base == "memb" { ExecCfg::mem_batches() }
+        let mut c = if base == "mem1" { ExecCfg::mem_single() } else if base == "memb" { ExecCfg::mem_batches() } else if base == "mem8c" { ExecCfg::mem_clustered() }
             else if let Some(rest) = base.strip_prefix("pq") { let (f, rg) = rest.split_once('x')?; ExecCfg::parquet(f.parse().ok()?, rg.parse().ok()?) } else { return None };
         for p in parts {
             if let Some(n) = p.strip_prefix("lim") { c = c.with_limit(n.parse().ok()?); }
@@ -155,6 +160,7 @@ fn providers(cat: &Catalog, layout: &Layout, dir: &mut Option<std::path::PathBuf
         match layout {
             Layout::MemSingle => out.push((t.name.clone(), Arc::new(MemoryTable::new(t.schema(), t.single_batch())))),
             Layout::MemBatches => out.push((t.name.clone(), Arc::new(MemoryTable::new(t.schema(), t.batches())))),
+            Layout::MemClustered => out.push((t.name.clone(), Arc::new(MemoryTable::new(t.schema(), t.clustered_batches())))),
             Layout::Parquet { files, rg } => {
                 if dir.is_none() { *dir = Some(scratch_dir()); }
                 let d = dir.as_ref().unwrap().join(&t.name);
